@@ -20,6 +20,7 @@ def programs(tier):
             for ctx in ('return', 'if', 'nested', 'lambda', 'arg_of_call'):
                 out.append(Prog(o, (cs,), ctx, 'param', None))
                 out.append(Prog(o, (cs,), ctx, 'param_kw', None))
+                out.append(Prog(o, (cs,), ctx, 'param_method', None))
                 if o and o[0][1] in (PO, POK):
                     out.append(Prog(o, (cs,), ctx, 'param_default', None))
     return out
@@ -41,13 +42,14 @@ def eval_prog(ld, st):
     cs = pr.calls[0]
     why = 'plain'
     exp = pl
-    if pr.route == 'param':
+    if pr.route in ('param', 'param_method'):
         uva, uvk, hva, hvk = discovery.call_flags(pr, 0)
         if uva or uvk:
             try:
-                full = S.forwards(S.signature(F), sigtools.signature(ld.callees[0]), cs.npos, *cs.names,
+                Ff = F.__func__ if pr.route == 'param_method' else F
+                full = S.forwards(S.signature(Ff), sigtools.signature(ld.callees[0]), cs.npos, *cs.names,
                                   use_varargs=uva, use_varkwargs=uvk, hide_args=hva, hide_kwargs=hvk)
-                exp = S.mask(full, 1)
+                exp = S.mask(full, 2 if pr.route == 'param_method' else 1)
                 why = 'looked-through'
             except ValueError:
                 pass
@@ -62,10 +64,10 @@ def eval_prog(ld, st):
     probs = []
     if depths.get(w) != 0:
         probs.append('partial object depth %r, not 0' % (depths.get(w),))
-    if depths.get(F, 1) != 1:
+    if pr.route != 'param_method' and depths.get(F, 1) != 1:
         probs.append('wrapped function depth %r, not 1' % (depths.get(F),))
-    if why == 'looked-through' and depths.get(ld.callees[0]) != 2:
-        probs.append('callee depth %r, not 2' % (depths.get(ld.callees[0]),))
+    if why == 'looked-through' and depths.get(ld.callees[0]) not in ((2,) if pr.route != 'param_method' else (2, 3)):
+        probs.append('callee depth %r, not below the partial and the forwarder' % (depths.get(ld.callees[0]),))
     if probs:
         st.violation('partial-of-wrapper-depths', case, {'program': discovery.show_prog(ld), 'reported': str(sig),
                                                         'sources': alg.src_show(sig), 'problems': probs}, {'route': pr.route})
